@@ -62,7 +62,7 @@ def gen(tier, rng, shard, nshards):
             dt = S.pick(rng, S.ALL_DT) if dtm.startswith("mixed") else dtm
             node = annotated_base(rng, dt)
         else:
-            o = S.Opts(dtmode=dtm, clean=rng.random() < 0.9, max_dim=int(S.pick(rng, [4, 6, 8])))
+            o = S.Opts(dtmode=dtm, clean=rng.random() < 0.9, max_dim=int(S.pick(rng, [4, 6, 8])), routines=0.08)
             node = S.gen_tree(rng, int(S.pick(rng, [0, 1, 1, 2, 2, 3])), o)
         xdt = S.pick(rng, S.ALL_DT)
         towers = TOWERS if tier == "thorough" else [TOWERS[int(j)] for j in rng.choice(len(TOWERS), 5, replace=False)]
